@@ -13,6 +13,10 @@ pub trait Elem: Clone + std::fmt::Display + std::fmt::Debug + PartialEq + PushPr
     fn k(&self) -> String;
     /// what `last_eq` is documented to compare with
     fn last_eq_ref(a: &Self, b: &Self) -> bool;
+    /// the element as the stack prints it (PushPrint), rendered by the harness's own code
+    fn pstring_ref(&self) -> String;
+    /// the element's Display text (what `equal_at` compares), rendered by the harness's own code
+    fn display_ref(&self) -> String;
 }
 impl Elem for i32 {
     fn k(&self) -> String {
@@ -21,6 +25,54 @@ impl Elem for i32 {
     fn last_eq_ref(a: &i32, b: &i32) -> bool {
         a == b
     }
+    fn pstring_ref(&self) -> String {
+        format!("{}", self)
+    }
+    fn display_ref(&self) -> String {
+        format!("{}", self)
+    }
+}
+impl Elem for pushr::push::vector::IntVector {
+    fn k(&self) -> String {
+        format!("{:?}", self.values)
+    }
+    fn last_eq_ref(a: &Self, b: &Self) -> bool {
+        a.values == b.values
+    }
+    fn pstring_ref(&self) -> String {
+        crate::refmodel::display(&Tree::IV(self.values.clone()))
+    }
+    fn display_ref(&self) -> String {
+        crate::refmodel::display(&Tree::IV(self.values.clone()))
+    }
+}
+impl Elem for pushr::push::vector::BoolVector {
+    fn k(&self) -> String {
+        format!("{:?}", self.values)
+    }
+    fn last_eq_ref(a: &Self, b: &Self) -> bool {
+        a.values == b.values
+    }
+    fn pstring_ref(&self) -> String {
+        crate::refmodel::display(&Tree::BV(self.values.clone()))
+    }
+    fn display_ref(&self) -> String {
+        crate::refmodel::display(&Tree::BV(self.values.clone()))
+    }
+}
+impl Elem for pushr::push::vector::FloatVector {
+    fn k(&self) -> String {
+        format!("{:?}", self.values.iter().map(|x| x.to_bits()).collect::<Vec<_>>())
+    }
+    fn last_eq_ref(a: &Self, b: &Self) -> bool {
+        a.values == b.values
+    }
+    fn pstring_ref(&self) -> String {
+        crate::refmodel::display(&Tree::FV(self.values.clone()))
+    }
+    fn display_ref(&self) -> String {
+        crate::refmodel::display(&Tree::FV(self.values.clone()))
+    }
 }
 impl Elem for f32 {
     fn k(&self) -> String {
@@ -28,6 +80,12 @@ impl Elem for f32 {
     }
     fn last_eq_ref(a: &f32, b: &f32) -> bool {
         a == b
+    }
+    fn pstring_ref(&self) -> String {
+        format!("{:.1}", self)
+    }
+    fn display_ref(&self) -> String {
+        format!("{}", self)
     }
 }
 fn kind(t: &Tree) -> u8 {
@@ -52,6 +110,12 @@ impl Elem for Item {
     // documented as "shallow for Items": same kind of item
     fn last_eq_ref(a: &Item, b: &Item) -> bool {
         kind(&tree_of(a)) == kind(&tree_of(b))
+    }
+    fn pstring_ref(&self) -> String {
+        crate::refmodel::display(&tree_of(self))
+    }
+    fn display_ref(&self) -> String {
+        crate::refmodel::display(&tree_of(self))
     }
 }
 
@@ -289,7 +353,7 @@ fn apply_ref<T: Elem>(r: &mut Vec<T>, op: &Op, vals: &[T]) -> String {
         Op::LastEq(a) => format!("{}", len > 0 && T::last_eq_ref(&r[0], &vals[*a])),
         Op::EqualAt(i, a) => {
             if *i < len {
-                format!("Some({})", r[*i].to_string() == vals[*a].to_string())
+                format!("Some({})", r[*i].display_ref() == vals[*a].display_ref())
             } else {
                 "None".into()
             }
@@ -304,7 +368,7 @@ fn apply_ref<T: Elem>(r: &mut Vec<T>, op: &Op, vals: &[T]) -> String {
             }
         }
         Op::Size => format!("{}", len),
-        Op::ToString => r.iter().map(|x| x.to_pstring()).collect::<Vec<_>>().join(" "),
+        Op::ToString => r.iter().map(|x| x.pstring_ref()).collect::<Vec<_>>().join(" "),
         Op::FromVec => "()".into(),
     }
 }
@@ -493,6 +557,14 @@ pub fn run(ctx: &mut Ctx) {
         "int" => {
             let (vals, max) = if ctx.tier_thorough { (vec![1, 2], 13) } else { (vec![1, 2], 10) };
             bfs::<i32>(ctx, "i32", vals, max);
+        }
+        "vectors" => {
+            // stacks of vectors: an empty vector, short ones, and two long float vectors that differ in the middle only
+            use pushr::push::vector::{BoolVector, FloatVector, IntVector};
+            bfs::<IntVector>(ctx, "IntVector", vec![IntVector::new(vec![]), IntVector::new(vec![1]), IntVector::new(vec![1, 2])], 3);
+            bfs::<BoolVector>(ctx, "BoolVector", vec![BoolVector::new(vec![]), BoolVector::new(vec![true, false])], 3);
+            let long = |mid: f32| FloatVector::new((0..40).map(|k| if k == 20 { mid } else { k as f32 + 0.5 }).collect());
+            bfs::<FloatVector>(ctx, "FloatVector", vec![FloatVector::new(vec![]), FloatVector::new(vec![1.5]), long(1.0), long(2.0)], 3);
         }
         "live" => {
             let (max, depth) = if ctx.tier_thorough { (5, 9) } else { (4, 7) };
